@@ -1,4 +1,9 @@
 #!/bin/sh
 # build + run helper used while developing: it.sh [scale] [seed]
-cd /verif/harness && RUSTFLAGS="--cfg neumann_verif" CARGO_NET_OFFLINE=true cargo build --release -p nv_c04 2>&1 | grep -E "^(error|warning)" -A 12 | head -80
+cd /verif/harness
+for i in 1 2 3 4 5 6 7 8 9 10 11 12; do
+  out=$(RUSTFLAGS="--cfg neumann_verif" CARGO_NET_OFFLINE=true cargo build --release -p nv_c04 2>&1)
+  if echo "$out" | grep -q "failed to load manifest"; then sleep 15; else break; fi
+done
+echo "$out" | grep -E "^(error|warning)" -A 12 | head -80
 cd /verif && NV_SCALE=${1:-20} VERIF_SEED=${2:-0} ./target/release/nv_c04 check --tier quick 2>&1 | grep -v "^proptest" | cut -c1-1500 | tail -${3:-12}
